@@ -257,6 +257,7 @@ class H2Reactor:
         self.win = {}
         self.streams = {}
         self.goaway = None
+        self.goaways = []
         self.settings_seen = 0
         self.settings_acks = 0
         self.server_settings = {}
@@ -403,6 +404,7 @@ class H2Reactor:
                         reply += self.fb.settings_ack()
             elif t == "goaway":
                 self.goaway = ev
+                self.goaways.append(ev)
             elif t == "ping":
                 self.pings.append(ev)
                 if not ev["ack"] and self.spec.get("ack_ping", True):
